@@ -12,16 +12,17 @@ import (
 )
 
 type CExpr struct {
-	Kind string // num ident bin un call index slice field old forall exists str
-	Op   string
-	Name string
-	Num  *big.Int
-	Str  string
-	X, Y, Z *CExpr   // operands: bin X op Y ; index X[Y]; slice X[Y:Z]; field X.Name; un Op X
-	Args []*CExpr    // call args
-	Vars []string    // quantifier variables
-	Expand bool      // forallx / existsx: a bounded quantifier that must be expanded into a finite conjunction
-	Pos  string
+	Kind       string // num ident bin un call index slice field old forall exists str
+	Op         string
+	Name       string
+	Num        *big.Int
+	Str        string
+	X, Y, Z    *CExpr   // operands: bin X op Y ; index X[Y]; slice X[Y:Z]; field X.Name; un Op X
+	Args       []*CExpr // call args
+	Vars       []string // quantifier variables
+	ExpandGoal bool     // forally: like forallx, and the expansion is also what is proved when the clause is a goal
+	Expand     bool     // forallx / existsx: a bounded quantifier that must be expanded into a finite conjunction
+	Pos        string
 }
 
 func (e *CExpr) String() string {
@@ -173,7 +174,7 @@ func ParseCExpr(src, pos string) (*CExpr, error) {
 // top: quantifier | iff
 func (p *cparser) parseTop() (*CExpr, error) {
 	t := p.peek()
-	if t.k == "id" && (t.s == "forall" || t.s == "exists" || t.s == "forallx") {
+	if t.k == "id" && (t.s == "forall" || t.s == "exists" || t.s == "forallx" || t.s == "forally") {
 		p.next()
 		var vars []string
 		for {
@@ -207,6 +208,9 @@ func (p *cparser) parseTop() (*CExpr, error) {
 		if t.s == "forallx" {
 			return &CExpr{Kind: "forall", Vars: vars, X: body, Pos: p.pos, Expand: true}, nil
 		}
+		if t.s == "forally" {
+			return &CExpr{Kind: "forall", Vars: vars, X: body, Pos: p.pos, Expand: true, ExpandGoal: true}, nil
+		}
 		return &CExpr{Kind: t.s, Vars: vars, X: body, Pos: p.pos}, nil
 	}
 	return p.parseIff()
@@ -238,7 +242,7 @@ func (p *cparser) parseImp() (*CExpr, error) {
 		// right associative; the consequent may itself be a quantifier
 		var r *CExpr
 		t := p.peek()
-		if t.k == "id" && (t.s == "forall" || t.s == "exists" || t.s == "forallx") {
+		if t.k == "id" && (t.s == "forall" || t.s == "exists" || t.s == "forallx" || t.s == "forally") {
 			r, err = p.parseTop()
 		} else {
 			r, err = p.parseImp()
@@ -276,7 +280,7 @@ func (p *cparser) parseAnd() (*CExpr, error) {
 		p.next()
 		var r *CExpr
 		t := p.peek()
-		if t.k == "id" && (t.s == "forall" || t.s == "exists" || t.s == "forallx") {
+		if t.k == "id" && (t.s == "forall" || t.s == "exists" || t.s == "forallx" || t.s == "forally") {
 			r, err = p.parseTop()
 		} else {
 			r, err = p.parseCmp()
@@ -447,7 +451,7 @@ func (p *cparser) parsePrimary() (*CExpr, error) {
 	case "str":
 		return &CExpr{Kind: "str", Str: t.s, Pos: p.pos}, nil
 	case "id":
-		if t.s == "forall" || t.s == "exists" || t.s == "forallx" {
+		if t.s == "forall" || t.s == "exists" || t.s == "forallx" || t.s == "forally" {
 			p.p--
 			return p.parseTop()
 		}
@@ -470,13 +474,13 @@ func (p *cparser) parsePrimary() (*CExpr, error) {
 // ---- contract blocks -------------------------------------------------------------------------
 
 type Clause struct {
-	Tags []string // property ids; empty = structural, visible to every property
-	E    *CExpr
-	Src  string
-	Pos  string
-	Name string // optional label
-	From []int  // loop asserts: prove from these earlier asserts of the same loop only (isolated cut)
-	FromAxioms bool // ... plus the axiom instances about bit-operation terms that occur (`from 1 +axioms`)
+	Tags       []string // property ids; empty = structural, visible to every property
+	E          *CExpr
+	Src        string
+	Pos        string
+	Name       string // optional label
+	From       []int  // loop asserts: prove from these earlier asserts of the same loop only (isolated cut)
+	FromAxioms bool   // ... plus the axiom instances about bit-operation terms that occur (`from 1 +axioms`)
 }
 
 func (c *Clause) visible(prop string) bool {
@@ -497,12 +501,12 @@ type PanicClause struct {
 }
 
 type LoopSpec struct {
-	Asserts   []*Clause // proved at the end of the loop body (before the post statement), then assumed
-	Invs      []*Clause
-	Decreases *Clause
+	Asserts     []*Clause // proved at the end of the loop body (before the post statement), then assumed
+	Invs        []*Clause
+	Decreases   *Clause
 	DeadBody    bool // `loop N deadbody`: the loop is reached with a false guard (body is dead code); proved at the loop
 	Unreachable bool // `loop N unreachable`: the loop head itself must be unreachable (dead branch)
-	AssumeTerm bool // decreases _
+	AssumeTerm  bool // decreases _
 }
 
 type AssignItem struct {
@@ -511,49 +515,50 @@ type AssignItem struct {
 }
 
 type Contract struct {
-	Key      string // pkgname.Func or pkgname.Type.Method
-	Props    []string
-	Requires []*Clause
-	Ensures  []*Clause
-	Exits    []*Clause // internal postconditions: checked at every return over the function's locals, never assumed by callers
-	Assigns  []AssignItem
-	Loops    map[int]*LoopSpec
-	Aliases  [][2]string
-	Inline   bool
-	Trusted  string
-	Panics   []*PanicClause
+	Key        string // pkgname.Func or pkgname.Type.Method
+	Props      []string
+	Requires   []*Clause
+	Ensures    []*Clause
+	Exits      []*Clause // internal postconditions: checked at every return over the function's locals, never assumed by callers
+	Assigns    []AssignItem
+	Loops      map[int]*LoopSpec
+	Aliases    [][2]string
+	Inline     bool
+	Trusted    string
+	Panics     []*PanicClause
 	NoOverflow bool
-	Pure     bool
-	Opaque   []string // type names treated abstractly inside this function
-	Pos      string
-	File     string
-	External bool // from /verif/spec extern file (assumed contract on a dependency)
-	Results  []string // names for results of external functions
-	Params   []string // parameter names for external functions
-	Asserts  []*Clause
-	Fresh    []string // results / places declared fresh (not aliasing any input)
-	MaybeNil []string
-	Uses     []string // lemmas (by name) assumed as hypotheses inside this function
-	UsesLate []string // lemmas assumed only at the returns
-	AliasSame map[string]bool // "a|b": aliased slices a and b start at the same element when they share memory
-	Returns  map[int][]*Clause    // k -> conditions that hold whenever the k-th return statement is reached
-	Gotos    map[string][]*Clause // "label#k" -> conditions under which the k-th goto to label may be taken
-	Afters   map[string][]*Clause // "pkg.F#k" -> assertions proved (then assumed) right after the block-level statement containing the k-th call of pkg.F
-	Hide     []string // spec functions whose defining axioms (`;@ defines f` in the prelude) are not shipped with this function's VCs
-	Inlines  []string          // lemma functions: callees to execute by their bodies although they have contracts
-	Unrolls  map[string]int    // "pkg.Func#loop" -> max iterations (lemma functions: unroll instead of cutting at invariants)
-	Reads    map[string][2]int64 // `reads p[lo:hi]`: the function depends on parameter p only through p[lo:hi]
-	Used     bool
+	Pure       bool
+	Opaque     []string // type names treated abstractly inside this function
+	Pos        string
+	File       string
+	External   bool     // from /verif/spec extern file (assumed contract on a dependency)
+	Results    []string // names for results of external functions
+	Params     []string // parameter names for external functions
+	Asserts    []*Clause
+	Fresh      []string // results / places declared fresh (not aliasing any input)
+	MaybeNil   []string
+	Uses       []string             // lemmas (by name) assumed as hypotheses inside this function
+	UsesLate   []string             // lemmas assumed only at the returns
+	AliasSame  map[string]bool      // "a|b": aliased slices a and b start at the same element when they share memory
+	Returns    map[int][]*Clause    // k -> conditions that hold whenever the k-th return statement is reached
+	Gotos      map[string][]*Clause // "label#k" -> conditions under which the k-th goto to label may be taken
+	Afters     map[string][]*Clause // "pkg.F#k" -> assertions proved (then assumed) right after the block-level statement containing the k-th call of pkg.F
+	Reveal     []string             // `reveal spec.x`: prelude axioms annotated `;@ needs x` are shipped with this function's VCs (x need not be a declared symbol)
+	Hide       []string             // spec functions whose defining axioms (`;@ defines f` in the prelude) are not shipped with this function's VCs
+	Inlines    []string             // lemma functions: callees to execute by their bodies although they have contracts
+	Unrolls    map[string]int       // "pkg.Func#loop" -> max iterations (lemma functions: unroll instead of cutting at invariants)
+	Reads      map[string][2]int64  // `reads p[lo:hi]`: the function depends on parameter p only through p[lo:hi]
+	Used       bool
 }
 
 type Lemma struct {
 	Uses   []string // other lemmas assumed while proving this one (`lemma NAME [induction n] uses A,B : ...`); no cycles
-	Induct string // `lemma NAME induction n : forall n, xs :: body` — proved by induction on n >= 0
-	Name string
-	Tags []string
-	E    *CExpr
-	Src  string
-	Pos  string
+	Induct string   // `lemma NAME induction n : forall n, xs :: body` — proved by induction on n >= 0
+	Name   string
+	Tags   []string
+	E      *CExpr
+	Src    string
+	Pos    string
 }
 
 type Pred struct {
@@ -574,7 +579,7 @@ type ContractSet struct {
 var clauseKeywords = map[string]bool{
 	"func": true, "props": true, "requires": true, "ensures": true, "assigns": true, "loop": true, "alias": true,
 	"inline": true, "trusted": true, "panics": true, "nooverflow": true, "lemma": true, "pure": true, "opaque": true,
-	"extern": true, "assert": true, "fresh": true, "maybenil": true, "package": true, "pred": true, "tagset": true, "aset": true, "reads": true, "inlines": true, "unroll": true, "exit": true, "use": true, "hide": true, "after": true, "uselate": true, "goto": true, "return": true,
+	"extern": true, "assert": true, "fresh": true, "maybenil": true, "package": true, "pred": true, "tagset": true, "aset": true, "reads": true, "inlines": true, "unroll": true, "exit": true, "use": true, "hide": true, "after": true, "uselate": true, "goto": true, "return": true, "reveal": true,
 }
 
 // assignSets: `//@ aset name := $.f, $.g[0:4]` — a reusable list of assigns items, `$` is the argument.
@@ -999,6 +1004,8 @@ func (cs *ContractSet) ReadFile(path, pkgName string, external bool) error {
 				cur.UsesLate = append(cur.UsesLate, strings.Fields(strings.ReplaceAll(rest, ",", " "))...)
 			case "hide":
 				cur.Hide = append(cur.Hide, strings.Fields(strings.ReplaceAll(rest, ",", " "))...)
+			case "reveal":
+				cur.Reveal = append(cur.Reveal, strings.Fields(strings.ReplaceAll(rest, ",", " "))...)
 			case "inlines":
 				cur.Inlines = append(cur.Inlines, strings.Fields(strings.ReplaceAll(rest, ",", " "))...)
 			case "unroll":
